@@ -542,7 +542,7 @@ func (c19) Execute(t *testing.T, ctx *simrt.Ctx) *simrt.Violation {
 	// round starting from cold caches. All queries of a round use one height (the
 	// node's current height is one process-wide value); many more executor names
 	// than the generated ones are resolved for the first time concurrently.
-	if nG := int(sc.Knob("conc", 0)); nG > 0 {
+	if nG := int(sc.Knob("conc", 0)); nG > 0 && len(sc.Ops) > 0 {
 		type q struct {
 			op   simrt.Op
 			want string
